@@ -223,9 +223,16 @@ class Generator:
 
     def build_items(self):
         items = []
+        seen_raw = set()
         for e in self.ov.entries:
             if not self.applicable(e):
                 continue
+            if e.kind in ('raw', 'spec'):
+                # two units may declare the same shared item under the same entry name (the `CastFrom`
+                # trait: units cast and xcast); it is emitted once, the first unit in file order wins
+                if (e.kind, e.key) in seen_raw:
+                    continue
+                seen_raw.add((e.kind, e.key))
             it = Item()
             it.entry = e
             it.kind = e.kind
